@@ -29,7 +29,8 @@ def main():
     for a in sys.argv:
         if a.startswith("--checks="):
             checks = a.split("=", 1)[1].split(",")
-    meta = json.load(open(os.path.join(src, "meta.json")))
+    mpath = os.path.join(src, "meta.json")
+    meta = json.load(open(mpath)) if os.path.exists(mpath) else {}
     prop = meta.get("property", name[:3])
     checks = checks or [prop]
     wt = f"/var/tmp/seedv-{name}"
